@@ -53,47 +53,8 @@ theorem ufunc2_compat (fn : GQ → GQ → GQ) (pw : Bool) (n : List Nat) (l r : 
     (cl cr : List Nat → List GQ) (vl vr : List Nat → Bool)
     (hl : ValCells n l cl vl) (hr : ValCells n r cr vr)
     (h : ufunc2 fn pw l r = .ok g) :
-    ∀ i, inRange n i = true → Compat (cl i).length (cr i).length := by
-  unfold ufunc2 at h
-  cases hff : firstFld l r with
-  | none => simp [hff] at h
-  | some self =>
-    simp only [hff] at h
-    cases ha : ufuncInput l with
-    | error e => simp [ha] at h
-    | ok p =>
-      obtain ⟨a, ka⟩ := p
-      simp only [ha] at h
-      cases hb : ufuncInput r with
-      | error e => simp [hb] at h
-      | ok q =>
-        obtain ⟨b, kb⟩ := q
-        simp only [hb] at h
-        split at h
-        · cases h
-        · cases hnb : npBin fn a b with
-          | error e => simp [hnb] at h
-          | ok res =>
-            simp only [hnb] at h
-            obtain ⟨_, hmk⟩ := ufuncWrap_ok _ _ _ _ h
-            have hself : self.mesh.n = n ∧
-                (self.mesh.n.length < a.shape.length ∨ self.mesh.n.length < b.shape.length) := by
-              rcases firstFld_some l r self hff with hl' | hr'
-              · subst hl'
-                have hf : Cells n self cl vl := hl
-                rw [ufuncInput_fld self a ka ha]
-                exact ⟨hf.2.1, Or.inl hf.rank⟩
-              · subst hr'
-                have hf : Cells n self cr vr := hr
-                rw [ufuncInput_fld self b kb hb]
-                exact ⟨hf.2.1, Or.inr hf.rank⟩
-            obtain ⟨hsn, hrank⟩ := hself
-            obtain ⟨_, _, _, _, hbd, _, _⟩ :=
-              npBin_cells fn self.mesh a b res hrank hnb _ _ none _ _ g (by intro v hv; cases hv) hmk
-            intro i hi
-            rw [← ufuncInput_cells n l cl vl hl a ka ha i hi, ← ufuncInput_cells n r cr vr hr b kb hb i hi,
-              opdCell_length, opdCell_length]
-            exact compat_of_bdim _ _ _ hbd
+    ∀ i, inRange n i = true → Compat (cl i).length (cr i).length :=
+  (ufunc2_cells fn pw n l r g cl cr vl vr hl hr h).2.2
 
 /-- `a + b` / `a * b` accepted ⇒ the component lists of `a` and `b` at every cell can be broadcast -/
 theorem applyBin_compat (env : Env) (b : BinOp) (hb : b = .add ∨ b = .mul) (n : List Nat) (l r : Val) (g : CF)
